@@ -69,7 +69,11 @@ Call(a) ==
     /\ UNCHANGED <<clk, mono, cache, res, estab>>
 
 Finish(v, t, cached) ==
-    /\ last' = [arg |-> arg, clk |-> clk, verdict |-> v, ttl |-> t, cached |-> cached]
+    /\ last' = [arg |-> arg, clk |-> clk, verdict |-> v, ttl |-> t, cached |-> cached,
+                \* the verdict given to records that arrived with the RRset without being members of
+                \* it: only the members of the RRset the signature covers are marked
+                stray |-> IF ~HasStray(arg.rr) THEN "none"
+                          ELSE IF Deviation = "markGroup" THEN v ELSE "NotSecure"]
     /\ estab' = (estab \/ (RrSignedGenuine(arg.rr) /\ SigSignedGenuine(arg.sig) /\ arg.key = "genuine"
                            /\ InWindow(Inc, Exp, clk)))
     /\ UNCHANGED ncall
@@ -121,7 +125,12 @@ Crypto ==
 
 CacheInsert ==
     /\ pc = "insert"
-    /\ LET life == IF CacheRule = "required" /\ res.verdict = "Secure" THEN res.ttl ELSE arg.rttl
+    \* the configured range applies to the received TTL; a Secure verdict is then never kept
+    \* beyond its authenticated TTL, whatever the configuration says
+    /\ LET life == IF CacheRule = "required" /\ res.verdict = "Secure"
+                   THEN (IF Deviation = "clampAfterCap" THEN Clamp(Min2(arg.rttl, res.ttl))
+                         ELSE Min2(Clamp(arg.rttl), res.ttl))
+                   ELSE Clamp(arg.rttl)
            e == [until |-> mono + life, verdict |-> res.verdict, ttl |-> res.ttl]
            k == KeyOf(arg) IN
        cache' = [x \in (DOMAIN cache) \cup {k} |-> IF x = k THEN e ELSE cache[x]]
@@ -174,6 +183,10 @@ C06_SecureOnlyInWindow ==
 \* ... and never with a TTL beyond the remaining signature lifetime
 C06_TtlBound ==
     Secure => last.ttl <= Remaining(Exp, last.clk)
+
+\* ... and never for a record that is not a member of the RRset the RRSIG covers
+C06_StrayNeverSecure ==
+    last # NoCall => (last.stray = "Secure" => MayStraySecure)
 
 \* Anti-strictness witnesses (must be reachable): bits that are not signed do not by
 \* themselves stand in the way of Secure; a verdict can be served from the cache.
